@@ -2,10 +2,11 @@ CONSTANTS
   H = 5
   NWit = 2
   MaxCalls = 2
-  PrimaryPersonas = {"honest", "lunatic", "equiv", "flip2", "nopivot", "badpivot"}
+  PrimaryPersonas = {"honest", "lunatic", "equiv", "flip2", "nopivot", "badpivot", "weak4bad"}
   WitnessPersonas = {"honest", "lunatic", "silent", "bad", "lagcatch"}
   Modes = {"skip", "seq"}
   Roots = {1, 3}
+  WithUpdate = TRUE
   Nows = {125}
   Weak_SkipTrustLevel = FALSE
   Weak_AdjacentIgnoresNextVals = FALSE
@@ -15,6 +16,7 @@ CONSTANTS
   Weak_MismatchAlsoCountsAsMatch = FALSE
   Weak_NoWitnessNeeded = FALSE
   Weak_BackwardsUnbound = FALSE
+  Weak_ReplacementHashUnchecked = FALSE
 INIT Init
 NEXT Next
 INVARIANTS TrustRootOnly StoreSound WitnessConfirmed NoConfirmationFromSilence AttackReported AttackStoresNothing StoreMonotone
